@@ -362,3 +362,10 @@ package repository
 //@   trusted
 //@   modifies nothing
 //@   ensures result1 == nil ==> result != nil
+
+// The configured remotes are read from the stored configuration on every call (C14: removing an entity deletes its
+// remote-tracking ref for every remote configured *now* - a remote added since the last call included).
+//@ func (*GoGitRepo).GetRemotes
+//@   props C14
+//@   stable git.configReads
+//@   ensures [answers-from-the-current-configuration] git.configReads == old(git.configReads) + 1
